@@ -179,6 +179,8 @@ def raise_case(case):
             ns = {"x": 1, "y": 2}
             exec(case["src"], ns)
             target = ns["target"]
+        elif origin == "named":  # compiled under a name that is no path at all and looks like markup
+            target = _load(case["fname"], case["src"])["target"]
         elif origin == "gone":  # compiled for a path that does not exist
             target = _load(os.path.join(APP, "gone_%s.py" % hashlib.sha1(case["src"].encode("utf-8")).hexdigest()[:8]), case["src"])["target"]
         else:
@@ -245,14 +247,20 @@ def _feat(row):
     return "plain"
 
 
+def _row(r):
+    """a match of _ROW -> (marked, number, text, marker glyph, delimiter glyph)"""
+    return (r.group(1) is not None, int(r.group(2)), r.group(4), cell(r.group(1)) if r.group(1) else "", cell(r.group(3)))
+
+
 def _snippet(path, lineno, rows):
     info = source_info(path) if path else None
     out = []
-    for marked, num, text in rows:
+    for marked, num, text, mark, delim in rows:
         known = info is not None and 1 <= num <= len(info[0])
         src = info[0][num - 1] if known else ""
         single = known and info[1] is not None and num not in info[1]
-        out.append({"num": num, "marked": marked, "text": cells(text), "known": known, "src": cells(src), "single": single, "feat": _feat(src)})
+        out.append({"num": num, "marked": marked, "text": cells(text), "known": known, "src": cells(src), "single": single, "feat": _feat(src),
+                    "mark": mark, "delim": delim})
     return {"line": lineno, "avail": info is not None and 1 <= lineno <= len(info[0]), "rows": out}
 
 
@@ -295,7 +303,7 @@ def project(text, frames, simple):
                 while k < end and lines[k].strip():
                     r = _ROW.match(lines[k])
                     if r:
-                        rows.append((r.group(1) is not None, int(r.group(2)), r.group(4)))
+                        rows.append(_row(r))
                     k += 1
                 obs["listing"].append({"ign": bool(fr and fr["ign"]), "file": cells(os.path.basename(shown)), "lineno": lineno, "fn": cells(fn), "ix": ix})
                 if rows:
@@ -312,7 +320,7 @@ def project(text, frames, simple):
         for x in lines[at + 1:]:
             r = _ROW.match(x)
             if r:
-                rows.append((r.group(1) is not None, int(r.group(2)), r.group(4)))
+                rows.append(_row(r))
         last = frames[-1] if frames else None
         obs["snippets"].append(_snippet(last["path"] if last else None, last["lineno"] if last else 0, rows))
     return obs
@@ -340,13 +348,18 @@ def run_history(case, shared=None):
     base = real_frames(e)
     msg = str(e)
     events = []
+    one = ExceptionTrace(e) if case.get("one_trace") else None  # ONE trace object rendered several times
     for r in case["renders"]:
         frames = [dict(f, ign=(f["dir"] == r["pat"])) for f in base]
+        utf8 = r.get("utf8", case["utf8"])
         # a fresh I/O per render - or one I/O (one formatter with its style stack) for everything: shared[0]
-        bio = BufferedIO(supports_utf8=case["utf8"]) if shared is None else shared[0]
+        bio = BufferedIO(supports_utf8=utf8) if shared is None else shared[0]
+        if shared is not None:
+            utf8 = bio.supports_utf8()
         bio.clear_output()
         bio.set_verbosity({0: F.NORMAL, 1: F.VERBOSE, 2: F.VERY_VERBOSE, 3: F.DEBUG}[r["verb"]])
-        trace = ExceptionTrace(e)
+        trace = one if one is not None else ExceptionTrace(e)
+        trace.ignore_files_in(None)
         if r["pat"] != "none":
             trace.ignore_files_in("^" + re.escape({"lib": LIB, "app": APP}[r["pat"]] + os.sep))
         esc = ""
@@ -356,7 +369,7 @@ def run_history(case, shared=None):
             if isinstance(x, (KeyboardInterrupt, SystemExit, T.MachineryError)):
                 raise
             esc = type(x).__name__
-        c = {"simple": case["simple"], "verb": r["verb"], "ignoring": r["pat"] != "none", "name": cells(type(e).__name__),
+        c = {"simple": case["simple"], "verb": r["verb"], "utf8": utf8, "ignoring": r["pat"] != "none", "name": cells(type(e).__name__),
              "msg": [cells(x) for x in msg.split("\n")], "frames": [{"ign": f["ign"], "dir": f["dir"]} for f in frames],
              "recursion": any(h["kind"] != "hop" for h in case["chain"]), "origin": case["origin"]}
         o = {"esc": esc, "lines": [], "head": [], "listing": [], "snippets": []}
@@ -410,7 +423,7 @@ def run_render(case):
 
 
 def random_render_case(rng):
-    origin = rng.choice(["file"] * 8 + ["exec", "gone"])
+    origin = rng.choice(["file"] * 8 + ["exec", "gone", "named"])
     chain = []
     for _ in range(rng.choice([0, 0, 1, 1, 2, 3, 5])):
         x = rng.random()
@@ -421,7 +434,8 @@ def random_render_case(rng):
         else:
             chain.append({"kind": "ping", "ign": rng.random() < 0.3, "n": rng.choice([1, 2, 5, 20])})
     kind = rng.choice(EXC_KINDS)
-    return {"origin": origin, "src": make_source(rng, at_top=rng.random() < 0.15), "exc": kind, "msg": rng.choice(MESSAGES),
+    return {"origin": origin, "fname": rng.choice(["</error>", "<b>", "x</info>y", "<template>", "dir\\"]),
+            "src": make_source(rng, at_top=rng.random() < 0.15), "exc": kind, "msg": rng.choice(MESSAGES),
             "chain": chain, "verb": rng.choice([0, 0, 1, 2, 3, 3]), "utf8": rng.random() < 0.7, "ignoring": rng.random() < 0.5,
             "simple": rng.random() < 0.2, "first_ign": rng.random() < 0.2, "target_ign": origin == "file" and rng.random() < 0.15}
 
@@ -432,8 +446,9 @@ def random_history_case(rng, k):
     case["origin"] = "file"
     case["simple"] = False
     case["salt"] = "history %d %d" % (k, rng.randint(0, 10 ** 9))
-    case["renders"] = [{"pat": rng.choice(["none", "lib", "app", "lib", "app"]), "verb": rng.choice([1, 2, 2, 3])}
-                       for _ in range(rng.choice([2, 3]))]
+    case["renders"] = [{"pat": rng.choice(["none", "lib", "app", "lib", "app"]), "verb": rng.choice([0, 1, 2, 2, 3]),
+                        "utf8": rng.random() < 0.5} for _ in range(rng.choice([2, 3]))]
+    case["one_trace"] = rng.random() < 0.6  # the same ExceptionTrace object for every render of the history
     return case
 
 
@@ -607,7 +622,7 @@ def run(ctx):
         "backslash, string with an unbalanced closing tag, string and comment holding U+2028 / form feed / U+0085): every row not touched by a multi-row token is shown verbatim. "
         "Every emitted input is replayed on the real classes and compared.  Exceptions raised through generated source files "
         "(failing statement at varying positions incl. the first rows, multi-row statements and strings, comments, tabs, "
-        "non-ASCII, markup-like text, characters str.splitlines() takes for line ends: U+2028/2029, FF, NEL, FS/GS/RS), through exec'd and file-less code, with 33 adversarial messages x 8 exception kinds, "
+        "non-ASCII, markup-like text, characters str.splitlines() takes for line ends: U+2028/2029, FF, NEL, FS/GS/RS), through exec'd and file-less code (also compiled under file names that look like style tags), with 33 adversarial messages x 8 exception kinds, "
         "a cause, call chains through ignored / not ignored modules and recursion (direct, mutual) up to depth 60 are rendered "
         "at every verbosity, UTF-8 on/off, with/without an ignore pattern, simple/full; what was written is tokenised "
         "(head lines, listing entries, snippet rows with the source rows) and ErrorReportTrace decides every P-clause; the "
@@ -626,6 +641,8 @@ def run(ctx):
         "reports no token spanning several rows on it",
         "a frame is 'under the ignored path' when its file lies in the directory handed to ignore_files_in()",
         "source unavailable (exec'd code, file gone): only 'renders', class name and message are required",
+        "on an I/O that does not support UTF-8 the report's own symbols are ASCII (marker '>' and delimiter '|'; the repository's "
+        "test_render_falls_back_on_ascii_symbols documents it); the glyphs on a UTF-8 I/O are not prescribed",
     ]
     setup()
     try:
@@ -794,10 +811,10 @@ def corpus_events(path, src, rng, k):
             for ln in displayed(Highlighter().code_snippet(src, line, 4, 4)):
                 r = _ROW.match(ln)
                 if r:
-                    rows.append((r.group(1) is not None, int(r.group(2)), r.group(4)))
+                    rows.append(_row(r))
         except Exception as x:  # noqa
             esc = type(x).__name__
-        c = {"simple": True, "verb": 0, "ignoring": False, "name": [], "msg": [], "frames": [], "recursion": False, "origin": "corpus"}
+        c = {"simple": True, "verb": 0, "utf8": True, "ignoring": False, "name": [], "msg": [], "frames": [], "recursion": False, "origin": "corpus"}
         o = {"esc": esc, "lines": [], "head": [], "listing": [], "snippets": [] if esc else [_snippet(path, line, rows)]}
         yield {"op": "render", "c": c, "o": o}, {"kind": "corpus", "path": path, "line": line}
 
@@ -826,10 +843,10 @@ def replay(ctx, path):
                 for ln in displayed(Highlighter().code_snippet(src, c["line"], 4, 4)):
                     r = _ROW.match(ln)
                     if r:
-                        rows.append((r.group(1) is not None, int(r.group(2)), r.group(4)))
+                        rows.append(_row(r))
             except Exception as x:  # noqa
                 esc = type(x).__name__
-            cc = {"simple": True, "verb": 0, "ignoring": False, "name": [], "msg": [], "frames": [], "recursion": False, "origin": "corpus"}
+            cc = {"simple": True, "verb": 0, "utf8": True, "ignoring": False, "name": [], "msg": [], "frames": [], "recursion": False, "origin": "corpus"}
             ev = {"op": "render", "c": cc, "o": {"esc": esc, "lines": [], "head": [], "listing": [], "snippets": [] if esc else [_snippet(c["path"], c["line"], rows)]}}
         elif c["kind"] in ("history", "pair"):
             ev = None
